@@ -6,6 +6,7 @@ condition states: for all values of the symbolic parameters inside the bounds, e
 eval(converted text) produce equal observation records.  CrossHair/z3 decide the condition.
 """
 import ast
+import re
 import zlib
 import concurrent.futures
 import json
@@ -19,7 +20,7 @@ from . import chrun, common, rt
 
 
 class Template:
-    def __init__(self, desc, src, params, pre, observe="trace+globals", budget=60, tags=(), samples=None, sem_configs=None):
+    def __init__(self, desc, src, params, pre, observe="trace+globals", budget=60, tags=(), samples=None, sem_configs=None, hook=None, meta=None):
         self.desc = desc  # canonical descriptor == id
         self.src = src
         self.params = params  # list of (name, typestring) e.g. ('B', 'List[bool]')
@@ -29,6 +30,8 @@ class Template:
         self.tags = tuple(tags)
         self.samples = samples  # optional list of concrete input dicts for the pre-screen
         self.sem_configs = sem_configs  # optional restriction of the semantic configurations
+        self.hook = hook  # name of a post-run observation hook in rt.HOOKS
+        self.meta = meta
 
 
 def cfg_name(u, w, i):
@@ -49,12 +52,12 @@ def strip_ctx(tree):
     return ast.dump(tree)
 
 
-def convert_program(oneliner_mod, src, seed_val):
+def convert_program(oneliner_mod, src, seed_val, sem_configs=None):
     """Run the real converter for all 8 configurations.  Returns {cfgname: ('ok', text) |
     ('rejected', exc type name, message)}; the RNG is seeded identically for the two unparsers of
     one semantic configuration so that their temporaries coincide."""
     res = {}
-    for w, i in common.SEM_CONFIGS:
+    for w, i in (sem_configs or common.SEM_CONFIGS):
         for u in common.UNPARSERS:
             random.seed(seed_val)
             try:
@@ -75,6 +78,17 @@ def default_samples(params, pre="True", want=4):
     out = []
     seen = set()
     code = compile(pre or "True", "<pre>", "eval")
+    # hints from the bounds text: exact / ranged lengths and int ranges
+    hint = {}
+    for m in re.finditer(r"len\((\w+)\) == (\d+)", pre or ""):
+        hint[m.group(1)] = (int(m.group(2)), int(m.group(2)))
+    for m in re.finditer(r"(\d+) <= len\((\w+)\) <= (\d+)", pre or ""):
+        hint[m.group(2)] = (int(m.group(1)), int(m.group(3)))
+    for m in re.finditer(r"(?<![\w(])len\((\w+)\) <= (\d+)", pre or ""):
+        hint.setdefault(m.group(1), (0, int(m.group(2))))
+    for m in re.finditer(r"(-?\d+) <= (\w+) (<=|<) (-?\d+)", pre or ""):
+        hi = int(m.group(4)) - (1 if m.group(3) == "<" else 0)
+        hint[m.group(2)] = (int(m.group(1)), hi)
     for attempt in range(400):
         d = {}
         for n, t in params:
@@ -84,10 +98,14 @@ def default_samples(params, pre="True", want=4):
             elif t == "List[int]" and n == "NS":
                 d[n] = [rnd.randint(0, 2) for _ in range(rnd.randint(0, 3))]
             elif t == "List[int]":
-                k = rnd.randint(0, 7)
+                lo, hi = hint.get(n, (0, 7))
+                k = rnd.randint(lo, hi)
                 d[n] = [rnd.randint(-9, 40) for _ in range(k)]
             elif t == "int":
-                d[n] = rnd.choice([0, 1, 2, 3, -1, -2, 5, 7, -4, 4])
+                if n in hint:
+                    d[n] = rnd.randint(*hint[n])
+                else:
+                    d[n] = rnd.choice([0, 1, 2, 3, -1, -2, 5, 7, -4, 4])
             elif t == "bool":
                 d[n] = rnd.random() < 0.5
             elif t == "str":
@@ -134,6 +152,8 @@ def classify(a, b):
         return "globals-missing" if set(ka) - set(kb) else "globals-extra"
     if a[2] != b[2]:
         return "globals-diff"
+    if a[3] != b[3]:
+        return "call-diff"
     return None
 
 
@@ -211,7 +231,7 @@ class Driver:
             except SyntaxError as e:
                 self.report.harness_error("template %s does not compile: %s" % (t.desc, e))
                 continue
-            conv = convert_program(self.ol, t.src, zlib.crc32(t.desc.encode()) & 0xFFFF)
+            conv = convert_program(self.ol, t.src, zlib.crc32(t.desc.encode()) & 0xFFFF, t.sem_configs or self.sem_configs)
             for w, i in (t.sem_configs or self.sem_configs):
                 ra = conv[cfg_name("ast.unparse", w, i)]
                 ro = conv[cfg_name("oneliner", w, i)]
@@ -252,6 +272,8 @@ class Driver:
                             "out": text,
                             "observe": t.observe,
                             "budget": t.budget,
+                            "hook": t.hook,
+                            "meta": t.meta,
                             "params": t.params,
                             "pre": t.pre,
                             "tidx": ti,
@@ -288,6 +310,8 @@ class Driver:
             "inputs": inputs,
             "observe": t.observe,
             "budget": t.budget,
+            "hook": t.hook,
+            "meta": t.meta,
             "detail": detail,
             "what": "%s [%s] %s inputs=%r" % (t.desc, ",".join(unmatched), cls, inputs),
         }
@@ -299,6 +323,7 @@ class Driver:
         """Concrete runs with a handful of default valuations: gives the reachability witness and
         catches gross divergences without the solver (they still go through the replay)."""
         keep = []
+        pending = []
         for od in obligations:
             t = templates[od["tidx"]]
             ob = rt.Obligation(od)
@@ -322,37 +347,51 @@ class Driver:
                     # concrete in-process divergence listed as a known finding: masked
                     self._diverged(t, od["cfgs"], cls, None, div[0])
                 else:
-                    self._confirm_and_report(t, od, div[0])
+                    pending.append((t, od, div[0]))
                 continue
             keep.append(od)
+        self._confirm_many(pending)
         return keep
 
     def _confirm_and_report(self, t, od, inputs):
-        """Replay in a fresh interpreter; classify; mask or report."""
-        rec_path = os.path.join(self.workdir, "replay_%d.json" % zlib.crc32(od["oid"].encode()))
-        rec = {
-            "property": self.report.prop,
-            "kind": "sce",
-            "descriptor": t.desc,
-            "configs": od["cfgs"],
-            "src": od["src"],
-            "out": od["out"],
-            "inputs": inputs,
-            "observe": od["observe"],
-            "budget": od["budget"],
-            "use_recorded_out": True,
-        }
-        with open(rec_path, "w") as f:
-            json.dump(rec, f)
-        r = replay_subprocess(rec_path)
-        if not r.get("reproduced"):
-            self.stats["spurious"] += 1
-            self.stats["inconclusive"] += 1
-            self.inconclusive_ids.append(od["oid"])
-            self.report.note("counterexample for %s did not reproduce concretely (spurious): %r %s" % (od["oid"], inputs, r.get("error", "")))
+        self._confirm_many([(t, od, inputs)])
+
+    def _confirm_many(self, items):
+        """Replay each (template, obligation, inputs) in a fresh interpreter (in parallel);
+        classify; mask or report."""
+        if not items:
             return
-        self.stats["counterexamples"] += 1
-        self._diverged(t, od["cfgs"], r["divergence"], {"out": od["out"], "source_record": r.get("a"), "converted_record": r.get("b")}, inputs)
+        paths = []
+        for k, (t, od, inputs) in enumerate(items):
+            rec_path = os.path.join(self.workdir, "replay_%d_%d.json" % (zlib.crc32(od["oid"].encode()), k))
+            rec = {
+                "property": self.report.prop,
+                "kind": "sce",
+                "descriptor": t.desc,
+                "configs": od["cfgs"],
+                "src": od["src"],
+                "out": od["out"],
+                "inputs": inputs,
+                "observe": od["observe"],
+                "budget": od["budget"],
+                "hook": od.get("hook"),
+                "meta": od.get("meta"),
+                "use_recorded_out": True,
+            }
+            with open(rec_path, "w") as f:
+                json.dump(rec, f)
+            paths.append(rec_path)
+        with concurrent.futures.ThreadPoolExecutor(max_workers=self.jobs) as ex:
+            results = list(ex.map(replay_subprocess, paths))
+        for (t, od, inputs), r in zip(items, results):
+            if not r.get("reproduced"):
+                self.stats["spurious"] += 1
+                self.stats["inconclusive"] += 1
+                self.inconclusive_ids.append(od["oid"])
+                self.report.note("counterexample for %s did not reproduce concretely (spurious): %r %s" % (od["oid"], inputs, r.get("error", r.get("note", ""))))
+                continue
+            self.stats["counterexamples"] += 1
+            self._diverged(t, od["cfgs"], r["divergence"], {"out": od["out"], "source_record": r.get("a"), "converted_record": r.get("b")}, inputs)
 
     # -- step 2: CrossHair ---------------------------------------------------------------------
     def solve(self, obligations, templates, label="sce"):
@@ -363,7 +402,7 @@ class Driver:
         # one obligations file for all batches of this call
         ob_path = os.path.join(self.workdir, "%s_obligations.json" % label)
         with open(ob_path, "w") as f:
-            json.dump([{k: od[k] for k in ("oid", "src", "out", "observe", "budget")} for od in obligations], f)
+            json.dump([{k: od[k] for k in ("oid", "src", "out", "observe", "budget", "hook", "meta")} for od in obligations], f)
         prelude = "OB = rt.load_obligations(%r)\n" % ob_path
         for idx, od in enumerate(obligations):
             by_oid[od["oid"]] = od
@@ -376,6 +415,7 @@ class Driver:
             conds, prelude, self.workdir, per_cond_timeout=self.per_cond_timeout, batch=batch, jobs=self.jobs, label=label
         )
         self.stats["solver_cpu_s"] += st["solver_cpu_s"]
+        pending = []
         for oid, (verdict, info) in results.items():
             od = by_oid[oid]
             t = templates[od["tidx"]]
@@ -406,10 +446,11 @@ class Driver:
                     self.inconclusive_ids.append(oid)
                     self.report.note("unparsable counterexample for %s: %s" % (oid, info.get("msg", "")[:200]))
                     continue
-                self._confirm_and_report(t, od, args)
+                pending.append((t, od, args))
             else:
                 self.stats["inconclusive"] += 1
                 self.inconclusive_ids.append(oid)
+        self._confirm_many(pending)
 
     def run(self, templates, on_rejected="violation", label="sce"):
         t0 = time.time()
